@@ -242,9 +242,9 @@ theorem remote_consistent : Consistent ctx remote := by
 theorem top_reaches_leaf (s : Store String) (h1 : s.get "root" = some (.blob "root"))
     (h2 : s.get "xxx" = some (.blob "xxx")) : Reaches ctx s top "leaf" := by
   refine .child top [⟨[97], "xxx", true⟩, ⟨[98], "xxx", false⟩] ⟨[97], "xxx", true⟩ "leaf" rfl ?_ (by simp) ?_
-  · simp [readManifest, top, h1, ctx]
+  · simp [readManifest, top, h1, ctx]; decide
   · refine .child _ [⟨[99], "leaf", false⟩] ⟨[99], "leaf", false⟩ "leaf" rfl ?_ (by simp) (.self _)
-    simp [readManifest, h2, ctx]
+    simp [readManifest, h2, ctx]; decide
 
 end Toy
 
